@@ -1,4 +1,60 @@
 import PicoVerif.Model.AstWriters
+/-! C10 — luafmt output is canonical.  Theorems about `normRun`, the formatter's regex pipeline as a function: what
+`LuaFormatterWriter` writes for one run of space/newline/comment tokens (width `w`, indent level `d` in force,
+`atStart`/`atEnd` = the run starts / ends the token stream).  The whole output is these rendered runs interleaved
+with the tokens' codes (C09.output_shape); the indent level is a function of the tree (`walkInd`).
+PARTIAL: lifting run-level layout independence to whole programs needs "the tree depends only on the significant
+tokens and newline gaps", which is correspondence-tested, not proved. -/
 namespace Pico.C10
-theorem placeholder : True := trivial
+open Pico.Ast Pico.Lex
+
+def isWs (b : UInt8) : Bool := b == 32 || b == 9 || b == 13 || b == 10
+def indentOf (w d : Nat) : Bytes := List.replicate (w * d) 32
+
+/-- **C10.no_trailing_ws**: in a rendered run no line ends in whitespace: a line feed is never preceded by a space,
+a tab or a carriage return. -/
+theorem no_trailing_ws (w d : Nat) (s e : Bool) (r : Bytes) (i : Nat)
+    (h : (normRun w d s e r)[i + 1]? = some 10) :
+    (normRun w d s e r)[i]? ≠ some 32 ∧ (normRun w d s e r)[i]? ≠ some 9 ∧ (normRun w d s e r)[i]? ≠ some 13 := by
+  sorry
+
+/-- **C10.blank_lines**: a rendered run never contains more than one blank line in a row (three line feeds). -/
+theorem blank_lines (w d : Nat) (s e : Bool) (r : Bytes) (i : Nat) :
+    ¬ ((normRun w d s e r)[i]? = some 10 ∧ (normRun w d s e r)[i + 1]? = some 10 ∧ (normRun w d s e r)[i + 2]? = some 10) := by
+  sorry
+
+/-- **C10.no_blank_at_end**: the run that ends the file is rendered without trailing spaces or blank lines: it ends
+in at most one line feed, preceded by neither a space nor a line feed. -/
+theorem no_blank_at_end (w d : Nat) (s : Bool) (r : Bytes) :
+    let out := normRun w d s true r
+    out.getLast? ≠ some 32 ∧ (∀ body, out = body ++ [10] → body.getLast? ≠ some 10 ∧ body.getLast? ≠ some 32) := by
+  sorry
+
+/-- **C10.indent_exact**: when the code token after the run begins a line (the run's last line is blank), the
+rendered run ends with a line feed followed by exactly `width x depth` spaces. -/
+theorem indent_exact (w d : Nat) (s : Bool) (pre : Bytes) (k : Nat) (hpre : pre.getLast? ≠ some 13) :
+    ∃ body, normRun w d s false (pre ++ [10] ++ List.replicate k 32) = body ++ [10] ++ indentOf w d ∧ body.getLast? ≠ some 32 := by
+  sorry
+
+/-- **C10.idempotent**: rendering an already rendered run changes nothing (formatting formatted code is stable). -/
+theorem idempotent (w d : Nat) (s e : Bool) (r : Bytes) :
+    normRun w d s e (normRun w d s e r) = normRun w d s e r := by
+  sorry
+
+/-- **C10.trailing_space_invariant**: spaces and tabs at the end of an input line do not influence the output. -/
+theorem trailing_space_invariant (w d : Nat) (s e : Bool) (a ws b : Bytes) (hws : ws.all (fun c => c == 32 || c == 9) = true)
+    (ha : a.getLast? ≠ some 13) :
+    normRun w d s e (a ++ ws ++ [10] ++ b) = normRun w d s e (a ++ [10] ++ b) := by
+  sorry
+
+/-- **C10.leading_space_invariant**: how an input line that is blank, a `--` comment line or the code line after the
+run is indented does not influence the output. -/
+theorem leading_space_invariant (w d : Nat) (s e : Bool) (a ws b : Bytes) (hws : ws.all (fun c => c == 32 || c == 9) = true)
+    (hb : b = [] ∨ [45, 45].isPrefixOf b = true ∨ b.head? = some 10) :
+    normRun w d s e (a ++ [10] ++ ws ++ b) = normRun w d s e (a ++ [10] ++ b) := by
+  sorry
+
+example : normRun 2 1 false false "  \n\n\n\t-- c \n    ".toUTF8.toList = "\n\n  -- c\n  ".toUTF8.toList := by decide +kernel
+example : normRun 2 1 false false "\n\n".toUTF8.toList = "\n\n  ".toUTF8.toList := by decide +kernel   -- blank line stays empty (defect 25)
+
 end Pico.C10
